@@ -444,7 +444,7 @@ def standard_check(mod, tier, seed, cfg='rel', floors=None, replay=None):
         if bcov:
             extra = dict(extra or {})
             extra['bulk_differential'] = bcov
-    return rep.finish(floors or getattr(mod, 'FLOORS', None), extra)
+    return rep.finish(None if replay else (floors or getattr(mod, 'FLOORS', None)), extra)
 
 
 def sample_lines(lines, k=8):
